@@ -15,13 +15,15 @@ namespace {
 struct Op
 {
   int kind;        // 0 = write, 1 = translate, 2 = setValue (fill every cell), 3 = translate with the default empty value T(),
-                   // 4 = continue on a copy of the grid
+                   // 4 = continue on a copy of the grid, 5 / 6 = the grid is copy- / move-assigned from another grid of shape a[]
+                   // whose cells hold the tags value, value+1, ...
   int a[3];        // write: logical index; translate: offset
   int64_t value;   // write: tag; translate: empty value
 };
 
 struct Plan
 {
+  int junk = 0;   // index of the byte every fresh heap allocation is filled with (sim::junkHeap)
   int dim = 2;
   int n[3] = {1, 1, 1};
   bool prefill = true;
@@ -141,9 +143,35 @@ Outcome runGrid(const Plan & p, Ctx & c)
       if (c.record) {c.note(fmt("#%zu write (%d,%d,%d) := %lld", k + 1, x, y, z, (long long)op.value));}
       Outcome o = observe("write", k + 1); if (!o.ok) {return o;}
     } else if (op.kind == 4) {
-      gridPtr.reset(new Grid(grid)); SIM_COUNT("op.copy"); if (translations) {SIM_PROBE("copy_after_translate");}
+      if (k & 1) {gridPtr.reset(new Grid(grid));} else {Grid tmp(grid); gridPtr.reset(new Grid(std::move(tmp))); SIM_PROBE("continue_on_a_moved_to_grid");}
+      SIM_COUNT("op.copy"); if (translations) {SIM_PROBE("copy_after_translate");}
       if (c.record) {c.note(fmt("#%zu continue on a copy", k + 1));}
       Outcome o = observe("copy", k + 1); if (!o.ok) {return o;}
+    } else if (op.kind == 5 || op.kind == 6) {
+      // the subject is overwritten by assignment from another grid, possibly of another shape (same or different cell count)
+      int n2[3] = {1, 1, 1}; CI nn2;
+      for (size_t a = 0; a < DIM; ++a) {n2[a] = 1 + std::abs(op.a[a]) % 8; nn2[(long)a] = (size_t)n2[a];}
+      std::unique_ptr<Grid> other(new Grid(nn2));
+      Model m2((int)DIM, n2);
+      int64_t tag = op.value;
+      auto idx2 = [&](int x, int y, int z) {CI i; i[0] = (size_t)x; i[1] = (size_t)y; if (DIM == 3) {i[(long)(DIM - 1)] = (size_t)z;} return i;};
+      for (int z = 0; z < m2.n[2]; ++z) {for (int y = 0; y < m2.n[1]; ++y) {for (int x = 0; x < m2.n[0]; ++x) {(*other)(idx2(x, y, z)) = Enc<T>::of(tag); m2.at(x, y, z) = tag; ++tag;}}}
+      bool sameCount = m2.cell.size() == m.cell.size(), sameShape = m2.n[0] == m.n[0] && m2.n[1] == m.n[1] && m2.n[2] == m.n[2];
+      if (sameCount && !sameShape) {SIM_PROBE("assigned_from_grid_of_same_cell_count_other_shape");}
+      if (sameShape) {SIM_PROBE("assigned_from_grid_of_same_shape");}
+      if (translations) {SIM_PROBE("assigned_over_a_translated_grid");}
+      if (op.kind == 5) {grid = *other;} else {grid = std::move(*other);}
+      m = m2; wrapped = false;
+      SIM_COUNT(op.kind == 5 ? "op.copy_assign" : "op.move_assign");
+      if (c.record) {c.note(fmt("#%zu %s-assigned from a %dx%dx%d grid", k + 1, op.kind == 5 ? "copy" : "move", n2[0], n2[1], n2[2]));}
+      Outcome o = observe("assignment", k + 1); if (!o.ok) {return o;}
+      if (op.kind == 5) {
+        // the source of a copy assignment keeps its cells
+        const Grid & co = *other;
+        for (int z = 0; z < m2.n[2]; ++z) {for (int y = 0; y < m2.n[1]; ++y) {for (int x = 0; x < m2.n[0]; ++x) {
+              if (!(co(idx2(x, y, z)) == Enc<T>::of(m2.at(x, y, z)))) {return Outcome::fail("assignment-changed-its-source", fmt("after op #%zu the source of the copy assignment no longer reads its own values", k + 1));}
+            }}}
+      }
     } else if (op.kind == 2) {
       grid.setValue(Enc<T>::of(op.value)); std::fill(m.cell.begin(), m.cell.end(), op.value);
       SIM_COUNT("op.setValue");
@@ -311,6 +339,11 @@ struct PropC15
         op.kind = 2; op.value = tag++;
       } else if (r.chance(0.03)) {
         op.kind = 4;
+      } else if (r.chance(0.03)) {
+        // assignment from another grid: a permutation of the current shape (same cell count), the same shape, or any shape
+        op.kind = r.chance(0.5) ? 5 : 6; op.value = tag; tag += 600;
+        int style = (int)r.below(3);
+        for (int a = 0; a < p.dim; ++a) {op.a[a] = (style == 0 ? p.n[(a + 1) % p.dim] : (style == 1 ? p.n[a] : (int)r.range(1, 8))) - 1;}
       } else if (nTrans < 50) {
         op.kind = r.chance(0.1) ? 3 : 1; ++nTrans;
         for (int a = 0; a < p.dim; ++a) {
@@ -344,7 +377,13 @@ struct PropC15
       scriptedPlans.push_back(p);}
   }
 
-  Plan generate(uint64_t index) const
+  // heap contents are an input of the run like any other: every fresh allocation is filled with a byte chosen by the plan
+  Plan generate(uint64_t index) const {Plan p = generate0(index); p.junk = (int)(mix64(master ^ 0x6a756e6bULL, index) % 5); return p;}
+  Outcome execute(const Plan & p, Ctx & c) const {sim::junkHeap(p.junk); return execute0(p, c);}
+  Json toJson(const Plan & p) const {Json j = toJson0(p); j.set("heap_fill_index", p.junk); return j;}
+  Plan fromJson(const Json & j) const {Plan p = fromJson0(j); if (j.has("heap_fill_index")) {p.junk = (int)j["heap_fill_index"].i();} return p;}
+  std::vector<Plan> simpler(const Plan & p) const {std::vector<Plan> out = simpler0(p); if (p.junk != 0) {Plan q = p; q.junk = 0; out.push_back(q);} return out;}
+  Plan generate0(uint64_t index) const
   {
     for (auto & ph : phases) {
       if (index >= ph.count) {index -= ph.count; continue;}
@@ -360,14 +399,14 @@ struct PropC15
     return Plan();
   }
 
-  Outcome execute(const Plan & p, Ctx & c) const
+  Outcome execute0(const Plan & p, Ctx & c) const
   {
     if (p.cellType == 1) {SIM_PROBE("one_byte_cell_type"); return p.dim == 2 ? runGrid<2, uint8_t>(p, c) : runGrid<3, uint8_t>(p, c);}
     if (p.cellType == 2) {SIM_PROBE("string_cell_type"); return p.dim == 2 ? runGrid<2, std::string>(p, c) : runGrid<3, std::string>(p, c);}
     return p.dim == 2 ? runGrid<2>(p, c) : runGrid<3>(p, c);
   }
 
-  Json toJson(const Plan & p) const
+  Json toJson0(const Plan & p) const
   {
     Json j = Json::object();
     j.set("dim", p.dim);
@@ -379,7 +418,10 @@ struct PropC15
       Json a = Json::array(); for (int k = 0; k < p.dim; ++k) {a.push(o.a[k]);}
       if (o.kind == 0) {e.set("op", "write").set("index", a).set("value", (long long)o.value);} else if (o.kind == 2) {
         e.set("op", "setValue").set("value", (long long)o.value);
-      } else if (o.kind == 3) {e.set("op", "translate_default_empty").set("offset", a);} else if (o.kind == 4) {e.set("op", "continue_on_copy");} else {
+      } else if (o.kind == 3) {e.set("op", "translate_default_empty").set("offset", a);} else if (o.kind == 4) {e.set("op", "continue_on_copy");} else if (o.kind == 5 || o.kind == 6) {
+        Json sh = Json::array(); for (int k = 0; k < p.dim; ++k) {sh.push(1 + std::abs(o.a[k]) % 8);}
+        e.set("op", o.kind == 5 ? "copy_assign_from" : "move_assign_from").set("source_cells_per_axis", sh).set("first_tag", (long long)o.value);
+      } else {
         e.set("op", "translate").set("offset", a).set("empty", (long long)o.value);
       }
       ops.push(e);
@@ -387,7 +429,7 @@ struct PropC15
     j.set("ops", ops);
     return j;
   }
-  Plan fromJson(const Json & j) const
+  Plan fromJson0(const Json & j) const
   {
     Plan p; p.dim = (int)j["dim"].i();
     for (int a = 0; a < p.dim; ++a) {p.n[a] = (int)j["cells_per_axis"][a].i();}
@@ -397,7 +439,10 @@ struct PropC15
       if (e["op"].s() == "write") {
         o.kind = 0; o.value = e["value"].i();
         for (int a = 0; a < p.dim; ++a) {o.a[a] = (int)e["index"][a].i();}
-      } else if (e["op"].s() == "setValue") {o.kind = 2; o.value = e["value"].i();} else if (e["op"].s() == "continue_on_copy") {o.kind = 4;} else {
+      } else if (e["op"].s() == "setValue") {o.kind = 2; o.value = e["value"].i();} else if (e["op"].s() == "continue_on_copy") {o.kind = 4;} else if (e["op"].s() == "copy_assign_from" || e["op"].s() == "move_assign_from") {
+        o.kind = e["op"].s() == "copy_assign_from" ? 5 : 6; o.value = e["first_tag"].i();
+        for (int a = 0; a < p.dim; ++a) {o.a[a] = (int)e["source_cells_per_axis"][a].i() - 1;}
+      } else {
         o.kind = e["op"].s() == "translate_default_empty" ? 3 : 1; o.value = o.kind == 1 ? e["empty"].i() : 0;
         for (int a = 0; a < p.dim; ++a) {o.a[a] = (int)e["offset"][a].i();}
       }
@@ -406,7 +451,7 @@ struct PropC15
     return p;
   }
 
-  std::vector<Plan> simpler(const Plan & p) const
+  std::vector<Plan> simpler0(const Plan & p) const
   {
     std::vector<Plan> out;
     removalCandidates(p.ops, [&](std::vector<Op> v) {Plan q = p; q.ops = std::move(v); out.push_back(q);});
@@ -450,7 +495,7 @@ struct PropC15
   {
     std::string s = o.cls + "|" + std::to_string(p.dim) + "D" + (p.cellType == 1 ? "/byte" : (p.cellType == 2 ? "/string" : "")) + "|";
     for (auto & op : p.ops) {
-      if (op.kind == 0) {s += "W";} else if (op.kind == 2) {s += "F";} else if (op.kind == 4) {s += "C";} else {
+      if (op.kind == 0) {s += "W";} else if (op.kind == 2) {s += "F";} else if (op.kind == 4) {s += "C";} else if (op.kind == 5 || op.kind == 6) {s += "A";} else {
         s += "T(";
         for (int a = 0; a < p.dim; ++a) {s += (op.a[a] > 0 ? "+" : (op.a[a] < 0 ? "-" : "0"));}
         s += ")";
@@ -475,7 +520,8 @@ struct PropC15
   {
     Json d = Json::object();
     d.set("rule",
-      "A plan is (grid shape, prefill, list of write/translate ops); after every op all cells and the "
+      "A plan is (grid shape, cell type int64_t / uint8_t / std::string, prefill, list of write / translate / setValue / continue-on-a-copy / "
+      "copy- and move-assignment-from-another-grid ops); after every op all cells and the "
       "reported offset are compared with a dense sliding-window model. Phases: scripted plans; the "
       "bounded space named by the property decoded bijectively from the run index (2D 1..4 cells/axis "
       "depth 1..3 and 3D 1..3 cells/axis depth 1..2 completely, 3D depth 3 as a seeded sample of its "
